@@ -164,9 +164,56 @@ func tmplFunctions(
 		}
 		funcMap[name] = f
 	}
+	// Bound the functions that build a string of requested size.
+	funcMap["repeat"] = func(count int, s string) (string, error) {
+		if err := checkTemplateStringSize(count, len(s)); err != nil {
+			return "", err
+		}
+		return strings.Repeat(s, count), nil
+	}
+	funcMap["indent"] = func(spaces int, s string) (string, error) {
+		if err := checkTemplateStringSize(spaces, 1+strings.Count(s, "\n")); err != nil {
+			return "", err
+		}
+		pad := strings.Repeat(" ", spaces)
+		return pad + strings.ReplaceAll(s, "\n", "\n"+pad), nil
+	}
+	funcMap["nindent"] = func(spaces int, s string) (string, error) {
+		if err := checkTemplateStringSize(spaces, 1+strings.Count(s, "\n")); err != nil {
+			return "", err
+		}
+		pad := strings.Repeat(" ", spaces)
+		return "\n" + pad + strings.ReplaceAll(s, "\n", "\n"+pad), nil
+	}
+	funcMap["alignLeft"] = func(count int, s string) (string, error) {
+		if err := checkTemplateStringSize(count, 1); err != nil {
+			return "", err
+		}
+		return alignLeft(count, s), nil
+	}
+	funcMap["alignRight"] = func(count int, s string) (string, error) {
+		if err := checkTemplateStringSize(count, 1); err != nil {
+			return "", err
+		}
+		return alignRight(count, s), nil
+	}
 	funcMap["__timestamp__"] = currentTimestamp
 	funcMap["__line__"] = currentLine
 	return funcMap
+}
+
+// maxTemplateStringSize limits size of a string that template function builds by request.
+//
+// The count may come from the query or from a log line, so without a limit
+// a template like {{ repeat 1000000000000 "x" }} exhausts the memory and
+// kills the process instead of failing the line.
+const maxTemplateStringSize = 1 << 20
+
+func checkTemplateStringSize(count, size int) error {
+	if count > 0 && size > 0 && count > maxTemplateStringSize/size {
+		return errors.Errorf("requested string is too big: %d * %d > %d", count, size, maxTemplateStringSize)
+	}
+	return nil
 }
 
 func alignLeft(count int, s string) string {
